@@ -29,5 +29,6 @@ Definition drv_es_first (unicode : bool) (inp : list N) (fuel : nat) (r : regex)
   es_first (fun c => fold_code_point c unicode) (fun c => if unicode then unfold_char c else unfold_uppercase_char c)
            inp fuel r ngroups start.
 
-Extraction "model.ml" drv_es_first optimize emit drv_lit_occ drv_bt drv_pk fold_code_point
+Extraction "model.ml" cps_add cps_add_one cps_add_set cps_inverted cps_inverted_interval_count cps_remove cps_intersect cps_contains cps_wf
+  add_icase_code_points_for unfold_char unfold_uppercase_char drv_es_first optimize emit drv_lit_occ drv_bt drv_pk fold_code_point
   group named_group named_groups groups replace replace_all drv_ident drv_first_ident drv_all_const escape.
